@@ -179,17 +179,17 @@ theorem mem_boxA_cons {d s n : ℕ} {rest : List Axis} {a : Pt} :
 theorem Pt.get_cons (x : ℕ × ℕ) (a : Pt) (d : ℕ) :
     Pt.get (x :: a) d = (if x.1 = d then x.2 else 0) + Pt.get a d := by
   unfold Pt.get
-  by_cases h : x.1 = d <;> simp [List.filter_cons, h]
+  by_cases h : x.1 = d <;> simp [h]
 
 theorem axStart_cons (x : Axis) (axes : List Axis) (d : ℕ) :
     axStart (x :: axes) d = (if x.1 = d then x.2.1 else 0) + axStart axes d := by
   unfold axStart
-  by_cases h : x.1 = d <;> simp [List.filter_cons, h]
+  by_cases h : x.1 = d <;> simp [h]
 
 theorem axLen_cons (x : Axis) (axes : List Axis) (d : ℕ) :
     axLen (x :: axes) d = (if x.1 = d then x.2.2 else 0) + axLen axes d := by
   unfold axLen
-  by_cases h : x.1 = d <;> simp [List.filter_cons, h]
+  by_cases h : x.1 = d <;> simp [h]
 
 theorem get_of_not_mem : ∀ (axes : List Axis) (a : Pt), a ∈ boxA axes → ∀ d, d ∉ axes.map (·.1) → Pt.get a d = 0
   | [], a, ha, d, _ => by
@@ -284,7 +284,7 @@ theorem sumL_range_indicator (n s fix : ℕ) (X : ℕ → M) :
     · by_cases h2 : s + n = fix
       · have h3 : s ≤ fix ∧ fix < s + (n + 1) := by omega
         have h4 : fix - s = n := by omega
-        simp [h1, h2, h3, h4]
+        simp [h2, h3, h4]
       · have h3 : ¬ (s ≤ fix ∧ fix < s + (n + 1)) := by omega
         simp [h1, h2, h3]
 
@@ -867,7 +867,7 @@ theorem lex_step (P a b r r' : Nat) (hr : r < P) (hr' : r' < P) :
 /-- lexicographic order of fixed-width digit strings is numeric order (of the part that fits the width) -/
 theorem padDigits_lt_iff (w : Nat) : ∀ (s t : Nat), padDigits w s < padDigits w t ↔ s % 10 ^ w < t % 10 ^ w := by
   induction w with
-  | zero => intro s t; simp [padDigits, Nat.mod_one, lt_irrefl_list]
+  | zero => intro s t; simp [padDigits, Nat.mod_one]
   | succ w ih =>
     intro s t
     rw [padDigits, padDigits, List.cons_lt_cons_iff, ih, Nat.mod_pow_succ, Nat.mod_pow_succ]
